@@ -154,7 +154,7 @@ func (r *scenarioRun) stuckCause() string {
 	}
 	last := r.syncs[len(r.syncs)-1]
 	if last.Err != nil {
-		return "error:" + normalizeErr(r.sc.ID, last.Err.Error())
+		return "error:" + normalizeErr(r.sc.ID, last.Err.Error()) + r.revisionCollision(last.Err.Error())
 	}
 	for _, q := range last.Requests {
 		if q.Actor == "mc" && q.Mutating() {
@@ -162,6 +162,40 @@ func (r *scenarioRun) stuckCause() string {
 		}
 	}
 	return "requeues-without-requests:" + r.sc.applyClass()
+}
+
+// revisionCollision: when a sync fails because the ControllerRevision it wants to create already
+// exists, tell whose revision occupies the name (the failing input, not just the message).
+func (r *scenarioRun) revisionCollision(msg string) string {
+	const pre = "can't create ControllerRevision "
+	i := strings.Index(msg, pre)
+	if i < 0 || !strings.Contains(msg, "already exists") {
+		return ""
+	}
+	name := msg[i+len(pre):]
+	if j := strings.Index(name, " "); j > 0 {
+		name = name[:j]
+	}
+	p := r.liveParent()
+	for _, o := range r.w.sim.PeekAll(sim.RevisionInfo.GVR()) {
+		if sim.Name(o) != name || (p != nil && sim.NS(o) != sim.NS(p)) {
+			continue
+		}
+		c := sim.ControllerOf(o)
+		switch {
+		case c != nil && p != nil && c.UID == sim.UID(p):
+			return ":occupied-by-own-unclaimed-revision"
+		case c != nil:
+			return ":occupied-by-revision-of-another-owner"
+		}
+		for k, v := range r.matchingLabels() {
+			if sim.Labels(o)[k] != v {
+				return ":occupied-by-orphan-revision-that-fails-the-selector"
+			}
+		}
+		return ":occupied-by-orphan-revision"
+	}
+	return ":occupied-by-nothing"
 }
 
 // rolloutClass tells, for a kind whose field was not applied, whether a rolling update is simply
